@@ -48,7 +48,9 @@ def run(ck, facts, tier):
     where = "%s:%d" % (r["file"], r["line"]) if r else None
     try:
         L, Rn = Poly.atom("left_n"), Poly.atom("right_n")
-        got = cel.Ev(facts, hooks=kernel_hooks()).apply_fn(fn, [me, TAU, L, Rn], 0)
+        # walking tau itself reaches the same element as tau[j]
+        hk1 = dict(kernel_hooks(), **{"@elem": lambda cont: (lambda idx: tau(idx)) if vkey(cont) == vkey(TAU) else None})
+        got = cel.Ev(facts, hooks=hk1).apply_fn(fn, [me, TAU, L, Rn], 0)
         i0, i1 = Poly.atom("i0"), Poly.atom("i1")
         rng_i = vkey(Sym("range", Poly.const(0).key(), N.key()))
         rng_j = vkey(Sym("range", Poly.const(1).key(), (LEN - Poly.const(1)).key()))
